@@ -154,21 +154,22 @@ def run(chk):
         lcompile.correspondence(chk, triples, ("cls", "perr"))
         # every error the compiler reports anywhere must be located
         base = lcompile.valid_corpus(rng, 10 if quick else 100)
-        more, step = lcompile.neighbours(rng, base, chk.tier, 9000 if quick else 500000)
-        more += inputs.random_bytes(rng, 1500 if quick else 50000)
-        t2 = lcompile.run_both(more)
+        more, step = lcompile.neighbours(rng, base, chk.tier, 9000 if quick else 200000)
+        more += inputs.random_bytes(rng, 1500 if quick else 30000)
         nbad = 0
-        for c, ri, rm in t2:
-            rej = ri.cls == "done" and ri.perr != "ok"
-            chk.case(c.hex(), nontrivial=rej)
-            chk.count("rejected" if rej else "accepted")
-            if rej:
-                why = located(c, ri.perr)
-                if why:
-                    nbad += 1
-                    if nbad <= 3:
-                        chk.violation("oracle", why, input_hex=hx(c), input_text=c.decode("utf-8", "replace")[:600])
-        lcompile.correspondence(chk, t2, ("cls", "perr"))
+        for t2 in lcompile.run_both_chunks(more):
+            for c, ri, rm in t2:
+                rej = ri.cls == "done" and ri.perr != "ok"
+                chk.case(c.hex(), nontrivial=rej)
+                chk.count("rejected" if rej else "accepted")
+                if rej:
+                    why = located(c, ri.perr)
+                    if why:
+                        nbad += 1
+                        if nbad <= 3:
+                            chk.violation("oracle", why, input_hex=hx(c), input_text=c.decode("utf-8", "replace")[:600])
+            lcompile.correspondence(chk, t2, ("cls", "perr"))
+            del t2
     def search():
         # the model is the proved reference: an input it refuses and the implementation compiles is a failing input
         for b in chk.broken:
